@@ -15,6 +15,10 @@ func zzSeqExisting(kind int) (keys []string, last []uint64) {
 		return []string{"p-18446744073709551610"}, []uint64{18446744073709551610}
 	case 4: // an ordinary record whose key merely looks like a member of the sequence
 		return []string{"p--5"}, nil
+	case 6: // a plain record that shares the textual prefix "p-"
+		return []string{"p-summary", "p-00000000000000000003"}, []uint64{3}
+	case 7: // another sequence whose prefix extends "p-"
+		return []string{"p-eu-00000000000000000009", "p-00000000000000000003"}, []uint64{3}
 	}
 	return nil, nil
 }
